@@ -24,6 +24,17 @@
     references the private object's slot and handle and carries the token's true public key, and the signature verifies
     under the label's public key (`cryptography`, public numbers of the fixture key: verify_sig); where the label has no
     usable private object / no public key nothing is loaded.
+(e) OCTET PATTERNS of CKA_EC_POINT (stream "point"): whether a point is bare (04 X Y) or DER-wrapped (04 <len> 04 X Y) follows from
+    the layout of the octet string; on a bare point the first octets of X sit where a wrapped point carries <len> and the inner
+    04.  REAL keys (private scalars d0+1, d0+2, … multiplied out with `cryptography`, d0 from the seed) whose X has 04 / 41 / 61
+    (DER tag, the DER lengths 65 / 97) / 00 at octet 0, 1 and 2, for P-256 and P-384, plus a control key; each stored bare and
+    wrapped; looked up as public object, as private object carrying the point, and through load_pkcs11_key + sign_using_p11
+    with the point on the public object only.  Plus octet strings of lengths 64..67 and 96..99 under the parameters of either
+    curve with the same octets (and the DER lengths len-2, len-3 of the string itself) at octets 0, 1, 2.  Oracle (point_layout,
+    from PKCS#11 / SEC 1 / X.690): found with key text X || Y (or 04 || X || Y: known finding F4) exactly when the string is a
+    bare or a wrapped point of the curve's size, the size error otherwise; signatures verify under the key's true public
+    numbers.  NOT judged, only counted: 1 + 2n octets not starting with 04, and a bare point that also reads as a wrapper
+    (04 3f 04 … / 04 5f 04 …: X starts 3f 04 / 5f 04).
 The Lean model replays each run's token log (get_p11_key / sign_using_p11 / load_pkcs11_key / p11_init ops) and answers env_cycle.
 """
 
@@ -326,6 +337,12 @@ def split_relation(c: dict[str, Any]) -> str:
 
 def exec_split(sc: dict[str, Any], msg: bytes) -> tuple[Any, ...]:
     """One run of the REAL signer path on a split layout: init_pkcs11_modules -> load_pkcs11_key(public=False) -> sign_using_p11."""
+    world, desc, tk = build_split_world(sc)
+    return exec_load_sign(world, desc, tk, sc["alg"], sc["hash_using_hsm"], msg)
+
+
+def exec_load_sign(world: p11emu.World, desc: list[dict[str, Any]], tk: Any, alg_v: int, on_hsm: bool | None, msg: bytes) -> tuple[Any, ...]:
+    """One run of the REAL signer path on `world`: init_pkcs11_modules -> load_pkcs11_key(label 'L', public=False) -> sign_using_p11."""
     from datetime import datetime, timezone
 
     from kskm.common.config_misc import KSKKey, KSKPolicy
@@ -336,9 +353,7 @@ def exec_split(sc: dict[str, Any], msg: bytes) -> tuple[Any, ...]:
 
     inc = datetime(2024, 1, 1, tzinfo=timezone.utc)
     bundle = RequestBundle(id="b", inception=inc, expiration=datetime(2024, 1, 22, tzinfo=timezone.utc), keys=set(), signatures=set(), signers=None)
-    world, desc, tk = build_split_world(sc)
     cfg = mk_cfg(desc)
-    alg_v, on_hsm = sc["alg"], sc["hash_using_hsm"]
     ksk = KSKKey(description="d", label="L", algorithm=AlgorithmDNSSEC(alg_v), valid_from=inc, rsa_size=(tk.k * 8 if tk.kind == "rsa" else None), rsa_exponent=(tk.e if tk.kind == "rsa" else None), hash_using_hsm=on_hsm)
     hold: dict[str, Any] = {}
     with world.installed(), C.Oracles() as orc:
@@ -356,6 +371,97 @@ def exec_split(sc: dict[str, Any], msg: bytes) -> tuple[Any, ...]:
         impl_sign = lib.run_impl(lambda: H.sign_using_p11(hold["ck"].p11, msg, AlgorithmDNSSEC(alg_v)), hexs) if hold.get("ck") is not None else None
         orcs = orc.take()
     return world, cfg, tk, ksk, impl_load, n_load, impl_sign, orcs
+
+
+# --------------------------------------------------------------------------------------
+# (e) octet patterns of CKA_EC_POINT at the positions an unwrapping rule can look at
+# --------------------------------------------------------------------------------------
+
+POINT_OCTETS = (0x04, 0x41, 0x61, 0x00)  # SEC 1 uncompressed marker = DER OCTET STRING tag; DER lengths 65 / 97 (P-256 / P-384 point); zero
+POINT_POSITIONS = (0, 1, 2)  # octets of X: on a bare point they sit where a wrapped point has <len> 04 X[0]
+CURVE_SIZE = {"P-256": 32, "P-384": 48}
+
+
+def pattern_keys(r: Any) -> list[tuple[str, Any]]:
+    """REAL curve points whose X coordinate has each of POINT_OCTETS at each of POINT_POSITIONS, for P-256 and P-384, plus the
+    first key tried as a control: private scalars d0+1, d0+2, … (d0 from the run's seed) multiplied out with `cryptography`
+    until every pattern is met (each pattern 1 key in 256: about a thousand scalar multiplications per curve)."""
+    from cryptography.hazmat.primitives.asymmetric import ec
+
+    out: list[tuple[str, Any]] = []
+    for curve, cobj in (("P-256", ec.SECP256R1()), ("P-384", ec.SECP384R1())):
+        size = CURVE_SIZE[curve]
+        want = {(pos, b) for pos in POINT_POSITIONS for b in POINT_OCTETS}
+        d = r.randrange(1, 1 << 64)
+        first = True
+        for _ in range(200000):
+            if not want:
+                break
+            d += 1
+            nums = ec.derive_private_key(d, cobj).public_key().public_numbers()
+            x = nums.x.to_bytes(size, "big")
+            hit = sorted((pos, x[pos]) for pos in POINT_POSITIONS if (pos, x[pos]) in want)
+            if hit or first:
+                tk = K.TestKey({"kind": "ec", "curve": curve, "d": "%x" % d, "x": "%x" % nums.x, "y": "%x" % nums.y})
+                out.append((f"{curve}:" + ("+".join(f"x[{pos}]={b:02x}" for pos, b in hit) if hit else "control"), tk))
+                want.difference_update(hit)
+            first = False
+        assert not want, want
+    return out
+
+
+def point_layout(size: int, s: bytes) -> tuple[str, bytes | None]:
+    """What an octet string returned as CKA_EC_POINT for a curve of `size`-octet coordinates IS, from PKCS#11 / SEC 1 / X.690:
+    the uncompressed point 04 || X || Y either bare (1 + 2*size octets) or as the contents of a DER OCTET STRING (tag 04,
+    short-form length 1 + 2*size, then exactly that many octets).  -> (kind, point incl. its 04 octet | None)."""
+    n = 1 + 2 * size
+    if len(s) == n + 2 and s[0] == 0x04 and s[1] == n and s[2] == 0x04:
+        return "wrapped", s[2:]
+    if len(s) == n:
+        if s[0] != 0x04:
+            return "right-size-not-uncompressed", s  # 1 + 2*size octets that do not start with the uncompressed marker: not judged beyond 'no foreign material'
+        if s[1] == n - 2 and s[2] == 0x04:
+            return "bare-that-also-reads-as-a-wrapper", s  # 04 3f 04 … / 04 5f 04 …: a bare point whose X starts 3f 04 / 5f 04 (1 key in 65536); recorded, not judged
+        return "bare", s
+    return "wrong-size", None
+
+
+def point_strings(r: Any, tier: str) -> list[tuple[str, bytes]]:
+    """Octet strings of the lengths around a bare and a wrapped point (64..67, 96..99), under the parameters of either curve,
+    with POINT_OCTETS (and the two DER lengths that fit the string itself) at octets 0, 1, 2 and random octets after them."""
+    out: list[tuple[str, bytes]] = []
+    for curve in ("P-256", "P-384"):
+        for ln in (64, 65, 66, 67, 96, 97, 98, 99):
+            combos = [(a, b, c) for a in POINT_OCTETS for b in sorted(set(POINT_OCTETS) | {ln - 2, ln - 3}) for c in POINT_OCTETS]
+            if tier == "quick":
+                # everything that starts with 04 (what a token plausibly returns), a sample of the rest
+                combos = [x for x in combos if x[0] == 0x04] + r.sample([x for x in combos if x[0] != 0x04], 6)
+            for a, b, c in combos:
+                out.append((curve, bytes([a, b, c]) + r.randbytes(ln - 3)))
+    return out
+
+
+def judge_point(res: Result, case: dict[str, Any], key: str, size: int, s: bytes, impl: Any) -> str:
+    """The property on one lookup of an object whose CKA_EC_POINT is `s`: found with the token's key exactly when `s` is a point
+    of the curve's size (bare or wrapped), the documented size error otherwise.  The derived key text is X || Y of the point
+    — or, as recorded in known finding F4, the point with its 04 octet in front; nothing else."""
+    kind, pt = point_layout(size, s)
+    k = impl.get("ok") if isinstance(impl, dict) else None
+    got = None if not k or k.get("publicKey") is None else base64.b64decode(k["publicKey"])
+    if kind in ("bare", "wrapped"):
+        assert pt is not None
+        if got is None:
+            res.violation("an EC key whose point the token returns " + kind + " was not found / has no public key", case, key=key, impl=impl, ec_point=hexs(s), point_layout=kind)
+        elif got not in (pt[1:], pt):
+            res.violation("derived public key is not the token's true key", case, key=key, impl=impl, ec_point=hexs(s), point_layout=kind, derived=hexs(got), true_x_y=hexs(pt[1:]))
+    elif kind == "wrong-size":
+        if isinstance(impl, dict) and "ok" in impl:
+            res.violation("an octet string that is neither a bare nor a wrapped point of the curve's size was not refused", case, key=key, impl=impl, ec_point=hexs(s), derived=None if got is None else hexs(got))
+    else:
+        assert pt is not None
+        if got is not None and got not in (pt[1:], pt):
+            res.violation("derived public key is not the token's true key", case, key=key, impl=impl, ec_point=hexs(s), point_layout=kind, derived=hexs(got))
+    return kind
 
 
 def verify_sig(tk: Any, alg_v: int, msg: bytes, sig: bytes) -> bool:
@@ -395,6 +501,9 @@ def run(tier: str, driver_ok: bool) -> Result:
         "x remaining handle numbers held by unrelated private keys / public objects x a slot refusing login / a second public object x 8 key profiles "
         "(RSA, RSA private without exponent, P-256/P-384 private with / without EC point, wrapped / bare) x hash on host / token / unset, through "
         "load_pkcs11_key + sign_using_p11: C_Sign must reach slot+handle of the PRIVATE object and the signature must verify under the label's public key; "
+        "(e) octet patterns of CKA_EC_POINT: real P-256 / P-384 keys whose X has 04 / 41 / 61 / 00 at octet 0, 1, 2 (+ control), bare and wrapped, public lookup / private object with point / "
+        "load_pkcs11_key + sign (signature verified); octet strings of lengths 64..67, 96..99 with those octets (and len-2, len-3) at octets 0..2 under either curve: found with X||Y exactly when the "
+        "string is a bare or wrapped point of the curve's size, else the size error; "
         "non-trivial = distinct case"
     )
     r = lib.rng("C15")
@@ -658,6 +767,77 @@ def run(tier: str, driver_ok: bool) -> Result:
             res.stats["split:sampled"] = res.stats.get("split:sampled", 0) + 1
             res.sample({"case": case, "expected": exp, "signs": [{k: sg[k] for k in ("module", "slot", "handle", "mechanism")} for sg in signs], "loaded": (impl_load.get("ok") or {}).get("p11") if isinstance(impl_load, dict) else None}, limit=8)
 
+    # ---- (e) octet patterns of CKA_EC_POINT ---------------------------------------------------------------
+    # Whether the token returns the point bare (04 X Y) or DER-wrapped (04 <len> 04 X Y) must be told from the LAYOUT of the
+    # octet string, never from octets of the key itself: on a bare point the first octets of X sit where a wrapped point
+    # carries its length and the inner 04.  Real keys whose X has 04 / 41 / 61 / 00 at octet 0, 1, 2, each bare and wrapped.
+    for tag, tk in pattern_keys(r):
+        alg_v = 13 if tk.curve == "P-256" else 14
+        pt = tk.ec_point(prefix=True)
+        for wrapped in (False, True):
+            attr = bytes([4, len(pt)]) + pt if wrapped else pt
+            base_case = {"ec_point_pattern": tag, "curve": tk.curve, "wrapped": wrapped, "private_scalar": "%x" % tk.dd, "x_starts": hexs(pt[1:4]), "ec_point": hexs(attr)}
+            pkey = f"point:{tk.curve}:{'wrapped' if wrapped else 'bare'}"
+            for public in (True, False):  # the public object; a private object that carries the point itself
+                es = p11emu.EmuSlot(0)
+                es.add_rsa("Other", K.rsa_keys(1024, 65537)[3])
+                es.add_ec("L", tk, wrapped_point=wrapped, priv_has_point=True)
+                world = p11emu.World([p11emu.EmuModule("emu0", [es])])
+                cfg = mk_cfg([{"path": "emu0"}])
+                with world.installed():
+                    impl = lib.run_impl(lambda: H.get_p11_key("L", H.init_pkcs11_modules(cfg), public=public, hash_using_hsm=None), key_j)
+                case = dict(base_case, via="get_p11_key", public=public)
+                res.count(case)
+                for part in tag.split(":", 1)[1].split("+"):
+                    res.bump("point:real-key:" + part)
+                res.bump("point:real-key:" + ("wrapped" if wrapped else "bare"))
+                res.bump("point:layout:" + judge_point(res, case, pkey, tk.size, attr, impl))
+                lines.append({"op": "get_p11_key", "hsm": C.hsm_j(cfg), "label": "L", "public": public, "hashUsingHsm": None, "log": C.canon_log(world.log)})
+                checks.append({"case": case, "impl": impl, "log": C.canon_log(world.log), "what": "get_p11_key"})
+            # the signer's path: the private object has no point, the public key comes from the public object, and what the
+            # token signs verifies under the key's true public numbers
+            on_hsm = r.choice([False, True, None])
+            msg = r.randbytes(r.choice([0, 33, 200]))
+            es = p11emu.EmuSlot(0)
+            es.add_ec("L", tk, wrapped_point=wrapped, priv_has_point=False)
+            world, cfg, _tk, ksk, impl_load, n_load, impl_sign, orcs = exec_load_sign(p11emu.World([p11emu.EmuModule("emu0", [es])]), [{"path": "emu0", "pin": "1234"}], tk, alg_v, on_hsm, msg)
+            case = dict(base_case, via="load_pkcs11_key", hash_using_hsm=on_hsm, msg=hexs(msg))
+            res.count(case)
+            res.bump("point:real-key:signer-path")
+            ck_j = impl_load.get("ok") if isinstance(impl_load, dict) else None
+            judge_point(res, case, pkey, tk.size, attr, {"ok": ck_j["p11"]} if ck_j else impl_load)
+            signs = [rec for rec in world.log if rec["op"] == "sign"]
+            if not (isinstance(impl_sign, dict) and "ok" in impl_sign) or len(signs) != 1:
+                res.violation("signing with a supported algorithm did not reach the token exactly once", case, key=pkey, impl=impl_sign if impl_sign is not None else impl_load, sign_operations=len(signs))
+            elif not verify_sig(tk, alg_v, msg, bytes.fromhex(impl_sign["ok"])):
+                res.violation("the signature obtained from the token does not verify under the public key of the label", case, key=pkey)
+            log = C.canon_log(world.log)
+            lines.append({"op": "load_pkcs11_key", "hsm": C.hsm_j(cfg), "ksk": C.ksk_j(ksk), "kskPolicy": kpol_j, "bundle": lib.bundle_j(bundle), "public": False, "log": log[:n_load]})
+            checks.append({"case": case, "impl": impl_load, "log": log[:n_load], "what": "load_pkcs11_key"})
+            if impl_sign is not None:
+                lines.append({"op": "sign_using_p11", "hsm": C.hsm_j(cfg), "label": "L", "hashUsingHsm": on_hsm, "data": hexs(msg), "algorithm": alg_v, "log": log, **orcs})
+                checks.append({"case": case, "impl": impl_sign, "log": log, "what": "sign_using_p11"})
+            if res.stats.get("point:sampled", 0) < 2 and not wrapped and "x[1]" in tag:
+                res.stats["point:sampled"] = res.stats.get("point:sampled", 0) + 1
+                res.sample({"case": case, "loaded": ck_j["p11"] if ck_j else impl_load}, limit=10)
+    # octet strings that are NOT points of the curve's size (and, as controls, some that are), same patterns at octets 0, 1, 2
+    for curve, attr in point_strings(r, tier):
+        es = p11emu.EmuSlot(0)
+        es.add(p11emu.EmuObject(LL.CKO_PUBLIC_KEY, "L", LL.CKK_EC, {int(LL.CKA_EC_POINT): attr, int(LL.CKA_EC_PARAMS): K.EC_OID[curve]}, None))
+        world = p11emu.World([p11emu.EmuModule("emu0", [es])])
+        cfg = mk_cfg([{"path": "emu0"}])
+        with world.installed():
+            impl = lib.run_impl(lambda: H.get_p11_key("L", H.init_pkcs11_modules(cfg), public=True, hash_using_hsm=None), key_j)
+        case = {"ec_point_string": hexs(attr), "length": len(attr), "curve": curve, "via": "get_p11_key", "public": True}
+        res.count(case)
+        kind = judge_point(res, case, f"point-string:{curve}:len{len(attr)}", CURVE_SIZE[curve], attr, impl)
+        res.bump("point:octet-string:" + kind)
+        res.bump("point:layout:" + kind)
+        if kind == "bare-that-also-reads-as-a-wrapper":
+            res.bump("point:bare-that-also-reads-as-a-wrapper:" + ("found" if isinstance(impl, dict) and impl.get("ok") else "refused"))
+        lines.append({"op": "get_p11_key", "hsm": C.hsm_j(cfg), "label": "L", "public": True, "hashUsingHsm": None, "log": C.canon_log(world.log)})
+        checks.append({"case": case, "impl": impl, "log": C.canon_log(world.log), "what": "get_p11_key"})
+
     # symmetric key types never sign
     for kt in (H.KeyType.AES, H.KeyType.DES3):
         key = H.KSKM_P11Key(label="S", key_type=kt, key_class=H.KeyClass.SECRET, public_key=None)
@@ -735,6 +915,21 @@ def replay(obj: dict[str, Any]) -> Any:
     v = obj.get("violation") or obj.get("disagreement") or {}
     c = v.get("case") or {}
     out: dict[str, Any] = {"recorded": obj}
+    if isinstance(c, dict) and c.get("via") == "get_p11_key" and ("ec_point_string" in c or "ec_point" in c):
+        import PyKCS11.LowLevel as LL
+
+        from kskm.misc import hsm as H
+
+        attr = bytes.fromhex(c.get("ec_point_string") or c["ec_point"])
+        es = p11emu.EmuSlot(0)
+        for cls in (LL.CKO_PUBLIC_KEY, LL.CKO_PRIVATE_KEY):
+            es.add(p11emu.EmuObject(cls, "L", LL.CKK_EC, {int(LL.CKA_EC_POINT): attr, int(LL.CKA_EC_PARAMS): K.EC_OID[c["curve"]]}, None))
+        world = p11emu.World([p11emu.EmuModule("emu0", [es])])
+        cfg = mk_cfg([{"path": "emu0"}])
+        with world.installed():
+            impl = lib.run_impl(lambda: H.get_p11_key("L", H.init_pkcs11_modules(cfg), public=bool(c.get("public", True)), hash_using_hsm=None), key_j)
+        kind, pt = point_layout(CURVE_SIZE[c["curve"]], attr)
+        out["now"] = {"CKA_EC_POINT": hexs(attr), "layout_by_the_property": kind, "true_x_y": None if pt is None else hexs(pt[1:]), "get_p11_key": impl}
     if isinstance(c, dict) and c.get("split"):
         sc = {k: x for k, x in c.items() if k != "msg"}
         msg = bytes.fromhex(c.get("msg", ""))
